@@ -256,7 +256,7 @@ func splitPlus(s string) []string {
 
 // C19: all-or-nothing emission at capacity; nil-target emitters track equally.
 func C19(r *vf.Run) {
-	r.Rule = "generated histories (a third of them re-basing with SetBase in mid-stream) replayed at every capacity from 0 to the program size (thorough) or at capacities 0-3 bytes short of every call boundary (quick): a call fits iff Len+size <= Cap; a call that does not fit must be refused leaving Bytes(), the target buffer, Len, PC and labels unchanged, a call that fits must be accepted; a nil-target emitter runs in lockstep with a roomy one on PC, GetLabel and Flags; a cell is (kind of refused call, bytes short) or nil-target call kind"
+	r.Rule = "generated histories (a third of them re-basing with SetBase in mid-stream) replayed at every capacity from 0 to the program size (thorough) or at capacities 0-3 bytes short of every call boundary (quick): a call fits iff Len+size <= Cap; a call that does not fit must be refused leaving Bytes(), the target buffer, Len, PC and labels unchanged, a call that fits must be accepted; a nil-target emitter (from NewEmitter(nil) or Clone(nil) of a buffered or buffer-less parent) runs in lockstep with a roomy one on PC, GetLabel and Flags; a cell is (kind of refused call, bytes short) or nil-target call kind"
 	r.Assume = []string{"tracked flags and listing lines after a refused call are not among the observables the statement enumerates"}
 	if r.Phase("capacity") {
 		chunks := r.N(32, 1600)
@@ -380,8 +380,30 @@ func C19(r *vf.Run) {
 				names := labelNames(calls)
 				real := asm.NewEmitter(make([]byte, 16384), listing)
 				dry := asm.NewEmitter(nil, listing)
+				// every way of creating an emitter without / with a target buffer: NewEmitter, or Clone of a
+				// buffered or buffer-less parent after a prefix of the history
+				how := g.Intn(4)
+				start := 0
+				if how > 0 && len(calls) > 0 {
+					start = g.Intn(len(calls))
+					var parent *asm.Emitter
+					if how == 2 {
+						parent = asm.NewEmitter(nil, listing) // buffer-less parent
+					} else {
+						parent = asm.NewEmitter(make([]byte, 16384), listing) // buffered parent
+					}
+					for _, c := range calls[:start] {
+						invoke(parent, c)
+					}
+					dry = parent.Clone(nil)
+					real = parent.Clone(make([]byte, 16384))
+				}
+				cells[fmt.Sprintf("nil-created:%d", how)]++
 				r.Eval(1)
 				for i, c := range calls {
+					if i < start {
+						continue
+					}
 					pr, pd := invoke(real, c), invoke(dry, c)
 					if (pr != nil) != (pd != nil) {
 						r.Fail("nil-target-acceptance", fmt.Sprintf("call #%d %s: real emitter panic=%v, nil-target panic=%v", i, c, pr, pd), histStrings(calls[:i+1]))
@@ -413,7 +435,7 @@ func C19(r *vf.Run) {
 			r.MergeCells(cells)
 		})
 	}
-	for _, s := range []string{"refused:ins2:short1", "refused:ins3:short1", "refused:ins3:short2", "refused:ins4:short3", "refused:data:short1", "refused:data:short4", "-label:short1", "nil:data", "nil:label", "nil:ins4"} {
+	for _, s := range []string{"refused:ins2:short1", "refused:ins3:short1", "refused:ins3:short2", "refused:ins4:short3", "refused:data:short1", "refused:data:short4", "-label:short1", "nil:data", "nil:label", "nil:ins4", "nil-created:1", "nil-created:2"} {
 		r.RequireSub(s)
 	}
 }
